@@ -26,7 +26,7 @@ func (P *Prog) recvFieldWrites(fn *ssa.Function, recvIdx int, depth int, seen ma
 	eachInstr(fn, func(_ *ssa.BasicBlock, _ int, in ssa.Instruction) {
 		if st, ok := in.(*ssa.Store); ok {
 			if b, f := fieldVar(st.Addr); f != nil && cvi(b) == recv {
-				out[f.Name()] = append(out[f.Name()], in)
+				out[P.roleName(f)] = append(out[P.roleName(f)], in)
 			}
 			return
 		}
@@ -180,7 +180,7 @@ func checkC17(P *Prog, r *Result) {
 		st := k.Underlying().(*types.Struct)
 		hasCoercer, wrapped := false, false
 		for i := 0; i < st.NumFields(); i++ {
-			if st.Field(i).Name() == "coercer" {
+			if P.roleName(st.Field(i)) == "coercer" {
 				hasCoercer = true
 			}
 			if sameNamed(st.Field(i).Type(), R.ZogSchemaN) {
@@ -224,6 +224,20 @@ func checkC17(P *Prog, r *Result) {
 		}
 	}
 	r.floor("C17/setcoercer", 9)
+
+	// ---- shared-schema-read-only: a schema object used at several places behaves at each as an
+	// independent copy only if executing it never writes schema memory (C08's write-effects rule) ----
+	tmp := NewResult(r.Prop, r.Tier)
+	g := P.buildModCG()
+	P.checkEffectsRule(tmp, g, "C17/shared-schema-read-only", sortedFuncs(P.execSet(g)), map[memClass]string{
+		mcSchema:  "a schema object placed at several positions of a larger schema (or used for several destination types) would carry state from one use to the next",
+		mcFreeVar: "closure captures live as long as the schema and are shared between its uses",
+	})
+	for _, o := range tmp.Obls {
+		r.Obls = append(r.Obls, o)
+		r.Instances[o.Rule]++
+	}
+	r.floor("C17/shared-schema-read-only", 80)
 }
 
 func isModifier(name string) bool {
@@ -288,6 +302,23 @@ func (P *Prog) nonLocalPointerStored(fn *ssa.Function, field string) string {
 		if al, ok := st.Val.(*ssa.Alloc); ok && al.Parent() == fn {
 			return
 		}
+		// the result of a helper that returns the address of its own local on every return: fresh per call
+		if c, ok := cv(st.Val).(*ssa.Call); ok {
+			if callee := callOf(c).static; callee != nil && callee.Blocks != nil && inModule(funcPkgPath(callee)) {
+				fresh, n := true, 0
+				eachInstr(callee, func(_ *ssa.BasicBlock, _ int, in2 ssa.Instruction) {
+					if rt, ok := in2.(*ssa.Return); ok && len(rt.Results) == 1 {
+						n++
+						if al, ok := cv(rt.Results[0]).(*ssa.Alloc); !ok || al.Parent() != callee {
+							fresh = false
+						}
+					}
+				})
+				if fresh && n > 0 {
+					return
+				}
+			}
+		}
 		msg = fmt.Sprintf("the pointer stored into %s at %s is not the address of a call-local copy: the schema would alias the caller's memory", field, P.ipos(in))
 	})
 	return msg
@@ -297,7 +328,7 @@ func (P *Prog) checkNotTypestate(r *Result) {
 	R := P.roles
 	isNotLoad := func(v ssa.Value) bool {
 		_, f := loadOfField(cv(v))
-		return f != nil && f.Name() == "isNot"
+		return f != nil && P.roleName(f) == "isNot"
 	}
 	// the consumer: the function that branches on the negation flag
 	var consumer *ssa.Function
@@ -320,7 +351,7 @@ func (P *Prog) checkNotTypestate(r *Result) {
 				return
 			}
 			_, f := fieldVar(st.Addr)
-			if f == nil || f.Name() != "isNot" {
+			if f == nil || P.roleName(f) != "isNot" {
 				return
 			}
 			nWriters++
@@ -376,13 +407,13 @@ func (P *Prog) checkNotTypestate(r *Result) {
 		switch x := in.(type) {
 		case *ssa.UnOp:
 			if x.Op == token.MUL {
-				if _, f := fieldVar(x.X); f != nil && f.Name() == "isNot" {
+				if _, f := fieldVar(x.X); f != nil && P.roleName(f) == "isNot" {
 					return []pathItem{{kind: "LOAD-ISNOT", in: in, aux: x}}
 				}
 			}
 		case *ssa.Store:
 			if _, f := fieldVar(x.Addr); f != nil {
-				switch f.Name() {
+				switch P.roleName(f) {
 				case "isNot":
 					v := "other"
 					if b, isC := constBool(cv(x.Val)); isC {
@@ -502,6 +533,49 @@ func (P *Prog) checkNotTypestate(r *Result) {
 	} else {
 		r.ok("C17/not-typestate", fname(consumer)+"#shape", P.pos(consumer.Pos()), "isNot branch: negated wrapper + NotIssueCode(code) + clear; else plain wrapper; one append")
 	}
+	// every exported method of the kind that appends a test looks at the negation flag first (through
+	// the consumer or a helper of it): otherwise a pending Not() is not applied to the next test and
+	// negates a later one instead
+	for _, m := range P.Funcs {
+		if m.Parent() != nil || m.Signature.Recv() == nil || !ast.IsExported(m.Name()) || R.kindOfFunc(m) != R.kindOfFunc(consumer) || R.kindOfFunc(m) == "" {
+			continue
+		}
+		mspec := *spec
+		mspec.relMemo = nil
+		mspec.inlineAll = true
+		mspec.keep = func(f *ssa.Function) bool {
+			return f == negW || f == plainW || f.Name() == "NotIssueCode" || (f.Parent() == nil && ast.IsExported(f.Name()))
+		}
+		mres := P.enumPathsSpec(m, nil, &mspec)
+		appends, unseen := 0, ""
+		for _, p := range mres.paths {
+			seen := false
+			for _, it := range p.items {
+				if it.kind == "ISNOT" {
+					seen = true
+				}
+				if it.kind == "APPEND" {
+					appends++
+					if !seen && unseen == "" {
+						unseen = p.String()
+					}
+				}
+			}
+		}
+		if appends == 0 {
+			continue
+		}
+		c := fname(m) + "#consumes-not"
+		r.sawFunc(fname(m))
+		switch {
+		case mres.capHit:
+			r.undecided("C17/not-typestate", c, P.pos(m.Pos()), "too many paths to enumerate")
+		case unseen != "":
+			r.bad("C17/not-typestate", c, P.pos(m.Pos()), "this method appends a test without looking at the negation flag: after Not() the test is not negated and the flag stays armed, so a later test is negated instead  [path: "+unseen+"]")
+		default:
+			r.ok("C17/not-typestate", c, P.pos(m.Pos()), "appends its test only after the negation flag was read")
+		}
+	}
 	// every method of the NotStringSchema interface goes through the consumer and does not append itself
 	nsObj := P.lookupObj(pkgZog, "NotStringSchema")
 	if nsObj == nil {
@@ -528,7 +602,7 @@ func (P *Prog) checkNotTypestate(r *Result) {
 					S[b] = true
 				}
 				if st, ok := in.(*ssa.Store); ok {
-					if _, f := fieldVar(st.Addr); f != nil && f.Name() == "tests" {
+					if _, f := fieldVar(st.Addr); f != nil && P.roleName(f) == "tests" {
 						own = true
 					}
 				}
